@@ -1,5 +1,6 @@
 """C05 — non-decimal radix string->float parsing is correctly rounded."""
 import gens
+import gens_algos
 from props.common import TRUSTED_BASE, ASSUMPTIONS
 
 ID = "C05"
@@ -60,6 +61,9 @@ def streams(tier, rng, fs, profile):
         ("g-random", gens.float_random_ops(rng, fs, rads, 60 if quick else 1500)),
         ("g-mixed", mixed_ops(rng, 60 if quick else 1500)),
     ]
+    # power-of-two moderate path: the invalid marker `power2 + INVALID_FP` at exponents beyond 32768
+    comp, api = gens_algos.marker_overflow_ops(rng, fs, tier)
+    out += [("comp-bin-marker", comp), ("g-marker", api)]
     return out
 
 
